@@ -1049,6 +1049,14 @@ func execKvInner(in kvInput, scratch string, prog *kvProgress) (Case, error) {
 			_ = k.handles[0].CloseAndDelete(ctxBg)
 		}
 	}()
+	// a keys-only feed registered BEFORE the full feed of the default collection: what it receives is not
+	// compared, but its presence must not change what the full feed receives
+	koTerm := make(chan bool)
+	if dc, err := k.coll(0, "_default._default"); err == nil {
+		_ = dc.StartDCPFeed(ctxBg, sgbucket.FeedArguments{ID: "keysonly", Backfill: sgbucket.FeedNoBackfill, KeysOnly: true, Terminator: koTerm},
+			func(sgbucket.FeedEvent) bool { return true }, nil)
+	}
+	defer close(koTerm)
 	if err := k.startFeed("_default._default"); err != nil {
 		return c, err
 	}
